@@ -44,6 +44,17 @@ func (t *Task) ActiveForVerif() bool {
 	return t.status == ACTIVE // read without the lock: only ever called under the cooperative scheduler
 }
 
+// RosterAppendHookForVerif, if set, is told the id of every task handed to roster.append (the call is put in
+// front of that method's body by goinstr, see harness/instr.json entry_hooks): an exact roster history,
+// where a poll could miss a task that is appended and dropped again between two polls.
+var RosterAppendHookForVerif func(taskId string)
+
+func rosterAppendedForVerif(t *Task) {
+	if RosterAppendHookForVerif != nil && t != nil {
+		RosterAppendHookForVerif(t.taskId)
+	}
+}
+
 // RosterForVerif snapshots the roster.
 func (m *Manager) RosterForVerif() Tasks { return m.roster.getTasks() }
 
